@@ -254,6 +254,18 @@ def steps_spec(cx):
                     cs.append(z3.Implies(z3.And(g, cond), veq_str(m_, mode)))
         return z3.And(*cs) if cs else z3.BoolVal(True)
 
+    def paired_filters_use_mode(steps, mode, *pred_classes):
+        """Every (present) paired filter on the given criteria is built with the given pair-filter mode."""
+        cs = []
+        for g, it in filters_of(steps, *pred_classes):
+            for cond, cn in possible_classes(it):
+                if cn == "PairedEndFilter":
+                    m_ = it.fields.get("kw_pair_filter_mode")
+                    cs.append(z3.Implies(z3.And(g, cond), veq_str(m_, mode)))
+        return z3.And(*cs) if cs else z3.BoolVal(True)
+
+    cx.spec["paired_filters_use_mode"] = paired_filters_use_mode
+
     def veq_str(a, b):
         from pyvc.engine import str_eq
         if a is None or b is None:
@@ -303,6 +315,8 @@ def builder_steps(c):
         filters_in_the_documented_order_then_one_sink=f"steps_sorted({S}) and exactly_one_sink_last({S})",
         both_is_forced_for_untrimmed_filters_with_adapters_on_one_side_only=f"implies({ONE_SIDED} and {UNTR}, untrimmed_pair_mode_is({S}, 'both'))",
         otherwise_the_requested_pair_filter_mode_applies=f"implies(paired and len(adapters) > 0 and len(adapters2) > 0, untrimmed_pair_mode_is({S}, pair_filter_mode))",
+        every_other_pair_filter_uses_the_requested_mode=f"implies(paired, paired_filters_use_mode({S}, pair_filter_mode, 'TooShort', 'TooLong', 'TooManyN', "
+                                                        f"'TooManyExpectedErrors', 'TooHighAverageErrorRate', 'CasavaFiltered', 'IsTrimmed'))",
         length_filters_present_iff_bounds_given=f"present_filter({S}, 'TooShort') == (not is_none(args.minimum_length)) and present_filter({S}, 'TooLong') == (not is_none(args.maximum_length))",
         n_and_casava_filters_present_iff_requested=f"present_filter({S}, 'TooManyN') == (not is_none(args.max_n)) and present_filter({S}, 'CasavaFiltered') == args.discard_casava",
         expected_error_filters_need_qualities=f"present_filter({S}, 'TooManyExpectedErrors') == (not is_none(args.max_expected_errors) and input_file_format.qualities) and "
